@@ -15,7 +15,7 @@ import (
 func init() {
 	register(&Spec{ID: "C16", Title: "Decimal text conversion preserves the numeric value", Run: runC16,
 		Meta: core.Meta{
-			Explanation: "Two rejection clauses of the property are decided; digit arithmetic is not. R16.1 ('invalid precision/scale combinations are rejected at construction'): every success return of NewDecimal and NewDecimalString is dominated by sanity() having returned nil, and sanity's error guards, normalised to half-planes over (Precision, Scale), cover the complement of the valid region 0 <= scale <= precision <= 38, i.e. {P < 0, P > 38, S < 0, S > P}. R16.2 ('input that cannot be represented is rejected'): every success return of SetString is dominated by a comparison of the fraction's length with Scale whose failing edge returns an error, and by big.Int.SetString having reported ok. R16.3: the magnitude is only ever produced by math/big operations on the parsed digits inside SetString (the assigned value is the *big.Int that SetString parsed and Mul scaled).",
+			Explanation: "Two rejection clauses of the property are decided; digit arithmetic is not. R16.1 ('invalid precision/scale combinations are rejected at construction'): every success return of NewDecimal and NewDecimalString is dominated by sanity() having returned nil, and sanity's error guards, normalised to half-planes over (Precision, Scale), cover the complement of the valid region 0 <= scale <= precision <= 38, i.e. {P < 0, P > 38, S < 0, S > P}. R16.2 ('input that cannot be represented is rejected'): every success return of SetString is dominated by a comparison of the fraction's length with Scale whose failing edge returns an error, and by big.Int.SetString having reported ok. R16.4 ('rejected instead of silently changing the value'): every math/big call in SetString that modifies its receiver (SetString, Mul, ...) works on a big.Int allocated by that very call, never on dec.i or an alias of it, so an error return leaves the decimal — and every copy sharing its pointer — untouched. R16.3: the magnitude is only ever produced by math/big operations on the parsed digits inside SetString (the assigned value is the *big.Int that SetString parsed and Mul scaled).",
 			NotDecided:  "The format/parse round trip, the canonical text form and all digit arithmetic (padding, splitting at precision-scale, powers of ten) are value-level and not decided; seeded changes that overflow an int64 fast path or a float power of ten are not detectable by these rules.",
 			Assumptions: []string{"math/big semantics"},
 		}})
@@ -26,6 +26,7 @@ func runC16(r *core.Run) {
 	r.Rule("R16.1", "constructors succeed only for 0 <= scale <= precision <= 38", 6, false)
 	r.Rule("R16.2", "SetString succeeds only if the fraction fits the scale and the digits parsed", 2, false)
 	r.Rule("R16.3", "the magnitude comes from math/big operations on the parsed digits", 1, false)
+	r.Rule("R16.4", "a rejected input leaves the decimal untouched: SetString parses into a big.Int of its own", 1, false)
 
 	sanity := p.Func("asetypes", "Decimal", "sanity")
 	fP := p.Field("asetypes", "Decimal", "Precision")
@@ -198,6 +199,35 @@ func runC16(r *core.Run) {
 			}
 		}
 	}
+	// R16.4: every math/big call in SetString that can modify its receiver works on a big.Int allocated by this call
+	okFresh, nMut := true, 0
+	whyFresh := ""
+	for _, c := range core.Calls(ss) {
+		f := core.StaticCallee(c)
+		if f == nil || f.Pkg == nil || f.Pkg.Pkg.Path() != "math/big" || f.Signature.Recv() == nil || len(c.Common().Args) == 0 {
+			continue
+		}
+		switch f.Name() {
+		case "SetString", "Mul", "Add", "Sub", "Set", "SetInt64", "SetUint64", "Exp", "Neg", "Quo", "Div", "SetBytes", "Lsh", "Rsh", "Abs":
+		default:
+			continue
+		}
+		nMut++
+		recv := core.Strip(c.Common().Args[0])
+		al, isAl := recv.(*ssa.Alloc)
+		if !isAl || !al.Heap {
+			if call, isCall := recv.(*ssa.Call); isCall && (core.IsPkgFunc(call, "math/big", "NewInt")) {
+				continue
+			}
+			if isAl {
+				continue // a local (stack) big.Int is also the call's own
+			}
+			okFresh = false
+			whyFresh = "big.Int." + f.Name() + " in SetString works on " + core.Expr(recv) + ", not on a big.Int allocated by this call: when the input is rejected (or for a copy of the Decimal sharing the pointer) the stored number has already been overwritten"
+		}
+	}
+	r.Check(okFresh && nMut > 0, "R16.4", "SetString parses into a fresh big.Int", ss.Pos(), fmt.Sprintf("%d modifying math/big calls, all on values allocated by the call", nMut), whyFresh)
+
 	r.Check(okI, "R16.3", "SetString stores the big.Int it parsed", ss.Pos(), "dec.i = i where i.SetString(digits, 10)", fmt.Sprintf("the magnitude stored by SetString is not the value parsed from the digits"))
 }
 
